@@ -517,7 +517,7 @@ theorem cinvar_step {c c' : CState} (h : CInvar c) (hs : CStep {} c c') : CInvar
   | remove i key order hpc hlock hok =>
     have hstep : StepOk c.s (.txRemove key) := hok.2
     have hpcown : ∀ pc', (pc' = (if c.s.cfg.asyncRemove = true then PC.done else
-        PC.clean (orphans (applyStep c.s (.txRemove key))) false)) → pc'.owned = none ∧ pc'.ownKey = none ∧ pc'.consumes = none ∧ pc'.holds = false := by
+        PC.clean (arrange order (orphans (applyStep c.s (.txRemove key)))) false)) → pc'.owned = none ∧ pc'.ownKey = none ∧ pc'.consumes = none ∧ pc'.holds = false := by
       intro pc' e; subst e; split <;> simp [PC.owned, PC.ownKey, PC.consumes, PC.holds]
     obtain ⟨o1, o2, o3, o4⟩ := hpcown _ rfl
     refine cinvar_update h i (applyStep c.s (.txRemove key)) _ _ rfl rfl
@@ -535,11 +535,11 @@ theorem cinvar_step {c c' : CState} (h : CInvar c) (hs : CStep {} c c') : CInvar
         exact ⟨a, mem_removeKey.mpr ⟨ha, hne⟩, h1, h2⟩
     · split
       · trivial
-      · exact ⟨orphans_dead h hlock _ rfl rfl, by intro hu; cases hu⟩
+      · exact ⟨fun d hd => orphans_dead h hlock (applyStep c.s (.txRemove key)) rfl rfl d (mem_arrange.mp hd), by intro hu; cases hu⟩
   | cleanupScan i order hpc hlock =>
     have hl := hlock rfl
     refine cinvar_update h i c.s _ _ rfl rfl h.inv h.allDirs (by intro hh; simp [PC.holds] at hh) ?_
-      (fun j _ => h.tok j) ⟨orphans_dead h hl _ rfl rfl, by intro hu; cases hu⟩
+      (fun j _ => h.tok j) ⟨fun d hd => orphans_dead h hl _ rfl rfl d (mem_arrange.mp hd), by intro hu; cases hu⟩
       (by intro a ha; simp [PC.owned] at ha) (by intro k hk; simp [PC.ownKey] at hk) (noCons rfl)
     exact dirBound_frame h i _ _ (fun n hn => hn) (Nat.le_refl _) (by intro tgt sn' e; rw [hpc] at e; cases e)
   | cleanUnmount i d r hpc =>
